@@ -3,9 +3,9 @@
    op 0  n <= 30, one (n, q) with a grid of confidence levels:
          11 0 n qbits nitems { cbits  Nobs Qobsbits confbits lo hi amb }*
    op 1  n > 30, one call; oracle values recomputed by the harness from stats.NormalDist:
-         11 1 n qbits cbits  mubits l1bits r1bits l0 r0 band_lr band_lr1 cdf_l1 cdf_hi cdf_lo cdf_hi1
+         11 1 n qbits cbits  mubits sigmabits l1bits r1bits l0 r0 band_lr band_lr1 cdf_l1 cdf_hi cdf_lo cdf_hi1
               Nobs Qobsbits confbits lo hi amb
-         (mu = norm.Mu, l1 = norm.InvCDF(alpha), alpha = (1-c)/2 capped at 1/2, r1 = 2*mu-l1 in floats,
+         (mu = norm.Mu, sigma = norm.Sigma, l1 = norm.InvCDF(alpha), alpha = (1-c)/2 capped at 1/2, r1 = 2*mu-l1 in floats,
           l0/r0 the rounded band, la = r0-1 if r0 <= l0 else l0 (the left end used),
           band_lr = CDF(r0-.5)-CDF(la-.5), band_lr1 = CDF(r0-1.5)-CDF(la-.5), cdf_l1 = CDF(l1),
           cdf_hi = CDF(r0-.5), cdf_lo = CDF(la-.5), cdf_hi1 = CDF(r0-1.5))
@@ -140,10 +140,10 @@ Definition check_C11 (line : list Z) : list Z :=
       | None => verdict V_MALFORMED 0 (-1) []
       end
   | 11 :: 1 :: rest =>
-      match (do n <- pZ; do qb <- pZ; do c <- pQ; do mu <- pX; do l1 <- pX; do r1 <- pX; do l0 <- pZ; do r0 <- pZ;
+      match (do n <- pZ; do qb <- pZ; do c <- pQ; do mu <- pX; do sg <- pX; do l1 <- pX; do r1 <- pX; do l0 <- pZ; do r0 <- pZ;
              do b1 <- pX; do b2 <- pX; do pl1 <- pX; do ch <- pX; do cl <- pX; do ch1 <- pX; do o <- p_qobs;
-             pend (n, qb, c, (mu, l1, r1), (l0, r0), (b1, b2, pl1), (ch, cl, ch1), o)) rest with
-      | Some ((n, qb, c, (mu, l1, r1), (l0, r0), (b1, b2, pl1), (ch, cl, ch1), o), _) =>
+             pend (n, qb, c, (mu, sg, l1, r1), (l0, r0), (b1, b2, pl1), (ch, cl, ch1), o)) rest with
+      | Some ((n, qb, c, (mu, sg, l1, r1), (l0, r0), (b1, b2, pl1), (ch, cl, ch1), o), _) =>
           match decode_bits qb with
           | XFin q =>
               if (n <=? qci_threshold) || Qltb q 0 || Qltb 1 q then verdict V_MALFORMED 0 (-1) [] else
@@ -151,9 +151,12 @@ Definition check_C11 (line : list Z) : list Z :=
               (* the property's order claim on the observation itself, for every c *)
               if negb (orders_ok n o) then verdict V_MISMATCH (Z.lor 128 (if Qle_bool c 0 then 16384 else 0)) 9 [o_lo o; o_hi o] else
               if Qle_bool 1 c then (if is_full n o then verdict V_OK 130 (-1) [] else verdict V_MISMATCH 130 1 []) else
-              match mu, l1, r1, b1, b2, ch, cl, ch1 with
-              | XFin mu, XFin l1, XFin r1, XFin b1, XFin b2, XFin ch, XFin cl, XFin ch1 =>
+              match mu, sg, l1, r1, b1, b2, ch, cl, ch1 with
+              | XFin mu, XFin sg, XFin l1, XFin r1, XFin b1, XFin b2, XFin ch, XFin cl, XFin ch1 =>
                   let nq := (inject_Z n * q)%Q in
+                  (* the approximating normal is Normal(n q, n q (1-q)): sigma^2 within 8 ulps of the variance *)
+                  let var := (nq * (1 - q))%Q in
+                  if negb (close_sqrt (ulps 8 var) var sg) then verdict V_MISMATCH 128 2 [1] else
                   (* the oracle values are mutually consistent: mu = n q, r1 = 2 mu - l1, the band masses
                      are the differences of the CDF values, the CDF values are ordered *)
                   if negb (within (ulps 4 nq) nq mu) then verdict V_MISMATCH 128 2 [] else
@@ -185,7 +188,7 @@ Definition check_C11 (line : list Z) : list Z :=
                   then (if orders_ok n o then verdict V_OK tag (-1) []
                         else verdict V_MISMATCH tag 9 [o_lo o; o_hi o])
                   else verdict V_MISMATCH tag 7 ([r_lo ex; r_hi ex; (if r_amb ex then 1 else 0)] ++ qdiag (r_conf ex))
-              | _, _, _, _, _, _, _, _ => verdict V_MISMATCH 128 8 []
+              | _, _, _, _, _, _, _, _, _ => verdict V_MISMATCH 128 8 []
               end
           | _ => verdict V_MALFORMED 0 (-1) []
           end
